@@ -1217,11 +1217,19 @@ func init() {
 				o.fail("the error below a Mark layer differs from the unmarked error ("+where+")", "", firstDiff(strip(a), strip(b)))
 				return false
 			}
-			va, vb := accVec(marked, false).String(), accVec(plain, false).String()
+			// the OS predicates are Is questions about sentinels: the mark is meant to answer those
+			// (Mark(e, ref) matches what ref matches), so they are not among the accessors compared
+			noOS := func(x Sx) string {
+				if n := len(x.List); n > 0 {
+					x.List = x.List[:n-1]
+				}
+				return x.String()
+			}
+			va, vb := noOS(accVec(marked, false)), noOS(accVec(plain, false))
 			if errors.IsAssertionFailure(plain) {
 				// IsAssertionFailure looks at the outermost layer only, which is the mark
-				vb = accVec(errors.WithDetail(plain, ""), false).String()
-				va = accVec(errors.WithDetail(marked, ""), false).String()
+				vb = noOS(accVec(errors.WithDetail(plain, ""), false))
+				va = noOS(accVec(errors.WithDetail(marked, ""), false))
 			}
 			if va != vb {
 				o.fail("the reference given to Mark contributes to an accessor ("+where+")", "", firstDiff(va, vb))
